@@ -5,6 +5,7 @@ from __future__ import annotations
 import ast
 import contextlib
 import io
+import threading
 import warnings
 
 import numpy as np
@@ -18,10 +19,46 @@ AXIS_HDR = "The current values for each jaxtyping axis annotation are as follows
 TREE_HDR = "The current values for each jaxtyping PyTree structure annotation are as follows."
 
 
+class _ThreadAwareStdout:
+    """sys.stdout proxy: a thread that has set a capture buffer gets its prints there,
+    every other thread goes to the original stream (contextlib.redirect_stdout swaps a
+    process-global and would mix the transcripts of concurrently running threads)."""
+
+    def __init__(self, orig):
+        self._orig = orig
+        self._tl = threading.local()
+
+    def write(self, s):
+        buf = getattr(self._tl, "buf", None)
+        if buf is not None:
+            return buf.write(s)
+        return self._orig.write(s)
+
+    def flush(self):
+        if getattr(self._tl, "buf", None) is None:
+            self._orig.flush()
+
+    def __getattr__(self, name):
+        return getattr(self._orig, name)
+
+
+def _proxy():
+    import sys
+
+    if not isinstance(sys.stdout, _ThreadAwareStdout):
+        sys.stdout = _ThreadAwareStdout(sys.stdout)
+    return sys.stdout
+
+
 def raw_transcript() -> str:
+    px = _proxy()
     buf = io.StringIO()
-    with contextlib.redirect_stdout(buf):
+    prev = getattr(px._tl, "buf", None)
+    px._tl.buf = buf
+    try:
         print_bindings()
+    finally:
+        px._tl.buf = prev
     return buf.getvalue()
 
 
